@@ -104,7 +104,14 @@ def behaviour_runs(chk, n):
     for _ in range(n):
         n_ops = rng.randint(1, 4)
         bad = {f"/op{i}": rng.choice([None, 1, 2, 3]) for i in range(n_ops)}   # fails from the k-th call on
-        app = E.make_app(lambda p, k: 500 if bad.get(p) is not None and k >= bad[p] else 200)
+        slow = {f"/op{i}" for i in range(n_ops) if rng.random() < 0.25}            # answers after the consumer's poll timeout
+
+        def behaviour(p, k):
+            if p in slow:
+                import time as _t
+                _t.sleep(0.25)
+            return 500 if bad.get(p) is not None and k >= bad[p] else 200
+        app = E.make_app(behaviour)
         workers = rng.choice([1, 1, 2, 3])
         phases = rng.choice([[PhaseName.FUZZING], [PhaseName.COVERAGE, PhaseName.FUZZING], [PhaseName.COVERAGE],
                              [PhaseName.EXAMPLES, PhaseName.FUZZING]])
